@@ -9,6 +9,8 @@ package main
 //   the stream is the concatenation of the pieces;
 //   PART  = (rep K)               chunks of K bytes (the last one shorter)
 //         | (sizes N1 N2 ...)     chunks of these sizes (zeros skipped), the remainder is the last chunk
+//         | (rep-eof K) | (sizes-eof N1 ...)  the same chunks, but the Read that delivers the last bytes also returns io.EOF
+//                                 (io.Reader allows n > 0 together with an error)
 // observed = one entry per partition: ((xFRAME ...) TERM)
 //   TERM  = eof | nolen | invlen | empty | format | range | other | panic | fuel
 
@@ -29,7 +31,10 @@ func init() {
 }
 
 // chunkReader delivers the chunks one Read at a time: at most len(p) bytes of the current chunk.
-type chunkReader struct{ chunks [][]byte }
+type chunkReader struct {
+	chunks      [][]byte
+	eofWithLast bool
+}
 
 func (r *chunkReader) Read(p []byte) (int, error) {
 	if len(r.chunks) == 0 {
@@ -40,6 +45,9 @@ func (r *chunkReader) Read(p []byte) (int, error) {
 		r.chunks = r.chunks[1:]
 	} else {
 		r.chunks[0] = r.chunks[0][n:]
+	}
+	if r.eofWithLast && len(r.chunks) == 0 {
+		return n, io.EOF
 	}
 	return n, nil
 }
@@ -78,7 +86,7 @@ func cut(part Sx, s []byte) [][]byte {
 	l := part.(List)
 	var out [][]byte
 	switch AtomSym(l[0]) {
-	case "rep":
+	case "rep", "rep-eof":
 		k := AtomInt(l[1])
 		for len(s) > 0 {
 			n := k
@@ -88,7 +96,7 @@ func cut(part Sx, s []byte) [][]byte {
 			out = append(out, s[:n])
 			s = s[n:]
 		}
-	case "sizes":
+	case "sizes", "sizes-eof":
 		for _, x := range l[1:] {
 			if len(s) == 0 {
 				break
@@ -131,7 +139,7 @@ func errClass(err error) string {
 	return "other"
 }
 
-func runPartition(chunks [][]byte, total int) Sx {
+func runPartition(chunks [][]byte, total int, eofWithLast bool) Sx {
 	// private copies: the parser must not see the harness's slices change, nor we the parser's buffer
 	cs := make([][]byte, len(chunks))
 	for i, c := range chunks {
@@ -139,7 +147,7 @@ func runPartition(chunks [][]byte, total int) Sx {
 	}
 	frames := List{}
 	r := Guard(func() Sx {
-		p := quickfix.VerifNewParser(&chunkReader{chunks: cs})
+		p := quickfix.VerifNewParser(&chunkReader{chunks: cs, eofWithLast: eofWithLast})
 		for i := 0; i <= total+1; i++ {
 			m, err := p.ReadMessage()
 			if err != nil {
@@ -161,7 +169,8 @@ func runFramer(in Sx) Sx {
 	parts := l[2].(List)[1:]
 	out := List{}
 	for _, part := range parts {
-		out = append(out, runPartition(cut(part, s), len(s)))
+		kind := AtomSym(part.(List)[0])
+		out = append(out, runPartition(cut(part, s), len(s), kind == "rep-eof" || kind == "sizes-eof"))
 	}
 	return out
 }
@@ -376,7 +385,24 @@ func partitions(c *Ctx, s []byte) Sx {
 		big,               // one chunk larger than the buffer
 		L(Sym("rep"), Int([]int{bufSize, bufSize - 1, bufSize + 1, bufSize / 2, 2 * bufSize, 1000}[c.Rng.Intn(6)])),
 		randSizes(c, n, 1+c.Rng.Intn(3*bufSize)),
+		withEOF(medium),
+		withEOF(sizesOfCuts(cuts)),
+		lastCut(c, n), // one cut near the end, the second Read returns the rest together with io.EOF
 	)
+}
+
+func withEOF(part Sx) Sx {
+	l := append(List{}, part.(List)...)
+	l[0] = Sym(AtomSym(l[0]) + "-eof")
+	return l
+}
+
+func lastCut(c *Ctx, n int) Sx {
+	back := 1 + c.Rng.Intn(300)
+	if back >= n {
+		back = n / 2
+	}
+	return L(Sym("sizes-eof"), Int(n-back))
 }
 
 func genFramer(c *Ctx) {
